@@ -16,6 +16,7 @@ import (
 	"sort"
 	"strconv"
 	"strings"
+	"sync"
 	"sync/atomic"
 	"time"
 
@@ -176,6 +177,42 @@ func (f *failModel) Distance(s1, s2 []uint8, w []float64) (float64, error) {
 	return f.inner.Distance(s1, s2, w)
 }
 
+// recordModel wraps a real model and records which pairs DistMatrix asks for
+type recordModel struct {
+	inner dna.DistModel
+	ptr   map[*uint8]int
+	mu    sync.Mutex
+	pairs []string
+}
+
+func (f *recordModel) InitModel(al align.Alignment, weights []float64, gamma bool, alpha float64) error {
+	if err := f.inner.InitModel(al, weights, gamma, alpha); err != nil {
+		return err
+	}
+	f.ptr = map[*uint8]int{}
+	for i := 0; i < al.NbSequences(); i++ {
+		s, err := f.inner.Sequence(i)
+		if err != nil {
+			return err
+		}
+		if len(s) > 0 {
+			f.ptr[&s[0]] = i
+		}
+	}
+	return nil
+}
+
+func (f *recordModel) Sequence(i int) ([]uint8, error) { return f.inner.Sequence(i) }
+
+func (f *recordModel) Distance(s1, s2 []uint8, w []float64) (float64, error) {
+	if len(s1) > 0 && len(s2) > 0 {
+		f.mu.Lock()
+		f.pairs = append(f.pairs, fmt.Sprintf("%d-%d", f.ptr[&s1[0]], f.ptr[&s2[0]]))
+		f.mu.Unlock()
+	}
+	return f.inner.Distance(s1, s2, w)
+}
+
 type phaseRes struct {
 	name                 string
 	pos                  int
@@ -292,6 +329,42 @@ func init() {
 		case <-time.After(watch):
 			return "hang"
 		}
+	})
+
+	// distjobs <nrows> <ranges|_> <cpus> -> the pairs handed to the workers, in the order of evaluation for
+	// cpus = 1 (= the producer's order), "i-j,i-j,..." ; "err" when DistMatrix returns an error
+	register("distjobs", func(a []string) string {
+		n := atoi(a[0])
+		rows := make([]Row, n)
+		for i := range rows {
+			// distinct, non-empty rows
+			rows[i] = Row{fmt.Sprintf("s%d", i), "ACGT" + strings.Repeat("A", i%3) + strings.Repeat("C", 2-i%3)}
+		}
+		al, err := mkAlign(align.NUCLEOTIDS, rows)
+		if err != nil {
+			return "err-build"
+		}
+		r := []int{-1, -1, -1, -1}
+		if rr := ints(a[1]); len(rr) == 4 {
+			r = rr
+		}
+		rm := &recordModel{inner: dna.NewPDistModel(false)}
+		if _, err := dna.DistMatrix(al, nil, rm, r[0], r[1], r[2], r[3], false, 0, atoi(a[2])); err != nil {
+			return "err"
+		}
+		if len(rm.pairs) == 0 {
+			return "_"
+		}
+		if atoi(a[2]) != 1 {
+			// the order of evaluation depends on the schedule: report the multiset
+			sort.Slice(rm.pairs, func(x, y int) bool {
+				var i1, j1, i2, j2 int
+				fmt.Sscanf(rm.pairs[x], "%d-%d", &i1, &j1)
+				fmt.Sscanf(rm.pairs[y], "%d-%d", &i2, &j2)
+				return i1 < i2 || (i1 == i2 && j1 < j2)
+			})
+		}
+		return strings.Join(rm.pairs, ",")
 	})
 
 	// distpair <kind> <param> <model> <rmgaps> <gapmut> <alpha|0> <rows1> <w1|_> <rows2> <w2|_> <cpus>
